@@ -190,6 +190,10 @@ func c11(c *Ctx) {
 		r.Add("STRUCT.const", "codecs.(*VP8Payloader).Payload", "picture id kept to 15 bits after increment", p.Position(fn.Pos()), okw, "no store to pictureID has bit 15 cleared")
 	}
 	r.Floor("VP8 layout rows", n, 20)
+	np := presenceRule(c, "codecs.(*VP8Packet).Unmarshal", []presRow{
+		{"X", []string{"I", "L", "T", "K"}}, {"I", []string{"PictureID"}}, {"L", []string{"TL0PICIDX"}},
+		{"T", []string{"TID", "Y"}}, {"K", []string{"KEYIDX"}}})
+	r.Floor("VP8 presence rows", np, 9)
 	var entries []*ssa.Function
 	for _, nme := range []string{"codecs.(*VP8Payloader).Payload", "codecs.(*VP8Packet).Unmarshal", "codecs.(*VP8Packet).IsPartitionHead"} {
 		if f := p.Func(nme); f != nil {
@@ -269,6 +273,11 @@ func c12(c *Ctx) {
 			okInit && okWrap && okZero && nStores >= 3, "stores to pictureID / wrap comparison not as specified")
 	}
 	r.Floor("VP9 layout rows", n, 29)
+	np := presenceRule(c, "codecs.(*VP9Packet).Unmarshal", []presRow{
+		{"I", []string{"PictureID"}}, {"L", []string{"TID", "U", "SID", "D"}}, {"F&P", []string{"PDiff"}}, {"V", []string{"NS", "Y", "G"}}})
+	np += presenceRule(c, "codecs.(*VP9Packet).parseLayerInfo", []presRow{{"!F", []string{"TL0PICIDX"}}})
+	np += presenceRule(c, "codecs.(*VP9Packet).parseSSData", []presRow{{"Y", []string{"Width", "Height"}}, {"G", []string{"NG"}}})
+	r.Floor("VP9 presence rows", np, 13)
 	var entries []*ssa.Function
 	for _, nme := range []string{"codecs.(*VP9Payloader).Payload", "codecs.(*VP9Packet).Unmarshal", "codecs.(*VP9Packet).IsPartitionHead", "codecs/vp9.(*Header).Unmarshal"} {
 		if f := p.Func(nme); f != nil {
